@@ -125,6 +125,13 @@ def run(ctx: Ctx):
             blk = [ast.unparse(x) for x in _enclosing_block(api.node, n)]
             ctx.ob("C18-O1", "R5 PAIRING", api, "best schedule and best makespan are updated together from the current pair", "best_schedule = schedule" in blk and ast.unparse(n.value) == "makespan", "", node=n)
     ctx.floor("makespan assignments", pairs, 3)
+    # ... and the other way round: a schedule variable never changes without its makespan variable
+    for n in own_nodes(api.node):
+        if isinstance(n, ast.Assign) and ast.unparse(n.targets[0]) in ("schedule", "best_schedule"):
+            tv = ast.unparse(n.targets[0])
+            mate = "makespan" if tv == "schedule" else "best_makespan"
+            blk = _enclosing_block(api.node, n)
+            ctx.ob("C18-O1", "R5 PAIRING", api, f"`{ast.unparse(n)}` comes with an assignment of `{mate}` in the same block", any(isinstance(x, ast.Assign) and ast.unparse(x.targets[0]) == mate for x in blk), f"a schedule replaced without its makespan leaves the pair inconsistent: the reported objective is then the makespan of another schedule", node=n)
     for s in result_sites(api):
         sol = ast.unparse(s.arg("solution"))
         if sol == "{}":
